@@ -6,6 +6,7 @@ import (
 	"go/parser"
 	"go/token"
 	"go/types"
+	"os"
 	"sort"
 	"strings"
 
@@ -51,9 +52,37 @@ func ok_window3(b []byte) [5]byte { var o [5]byte; if len(b) > 15 || len(b)%3 !=
 func bad_index_window3(b []byte) [5]byte { var o [5]byte; if len(b) > 18 || len(b)%3 != 0 { return o }; for i := 0; len(b) != 0; i, b = i+1, b[3:] { o[i] = b[0] }; return o }
 type rdr struct{ data []byte; err error }
 func (r *rdr) take(n int) []byte { b := r.data[:n]; r.data = r.data[n:]; return b }
-func und_slice_reader(b []byte) byte { if len(b) != 3 { return 0 }; r := &rdr{data: b}; x := r.take(1); y := r.take(2); return x[0] ^ y[1] }
+func ok_reader_direct(b []byte) byte { if len(b) != 3 { return 0 }; r := &rdr{data: b}; x := r.take(1); y := r.take(2); return x[0] ^ y[1] }
 type szr interface{ Size() int }
 func und_slice_dispatch(b []byte, s szr) []byte { if len(b) == 0 || s == nil { return nil }; return b[s.Size():] }
+type rdr2 struct{ data []byte; err error }
+func (r *rdr2) take(n int) []byte { b := r.data[:n]; r.data = r.data[n:]; return b }
+func (r *rdr2) u8(v *uint8) { if r.err != nil { return }; *v = r.take(1)[0] }
+func (r *rdr2) u16(v *uint16) { if r.err != nil { return }; b := r.take(2); *v = uint16(b[0]) | uint16(b[1])<<8 }
+func (r *rdr2) raw(n int, dst []byte) { if r.err != nil { return }; copy(dst, r.take(n)) }
+func ok_reader_chain(b []byte) (x uint8, y uint16, z [4]byte) { if len(b) != 9 { return }; r := rdr2{data: b}; r.u8(&x); r.raw(4, z[:]); r.u16(&y); r.u16(&y); return }
+type rdr3 struct{ data []byte; err error }
+func (r *rdr3) take(n int) []byte { b := r.data[:n]; r.data = r.data[n:]; return b }
+func (r *rdr3) u8(v *uint8) { if r.err != nil { return }; *v = r.take(1)[0] }
+func (r *rdr3) u16(v *uint16) { if r.err != nil { return }; b := r.take(2); *v = uint16(b[0]) | uint16(b[1])<<8 }
+func und_slice_reader_short(b []byte) (x uint8, y uint16) { if len(b) != 4 { return }; r := rdr3{data: b}; r.u8(&x); r.u16(&y); r.u16(&y); return }
+type rdr4 struct{ data []byte; err error }
+func (r *rdr4) take(n int) []byte { b := r.data[:n]; r.data = r.data[n+1:]; return b }
+func (r *rdr4) u8(v *uint8) { if r.err != nil { return }; *v = r.take(1)[0] }
+func und_slice_reader_skip(b []byte) (x, y uint8) { if len(b) != 3 { return }; r := rdr4{data: b}; r.u8(&x); r.u8(&y); return }
+type hd struct{ kind uint8; n int }
+func (h *hd) parse(b []byte) bool { if len(b) != 1 { return false }; h.kind = b[0] >> 5; return true }
+func (h *hd) parse2(b []byte) bool { if len(b) != 1 { return false }; h.kind = b[0] >> 4; return true }
+var hdTab [8]int
+func ok_post_bound(h *hd, b []byte) int { if !h.parse(b) { return 0 }; return hdTab[h.kind&7] }
+type hd5 struct{ kind uint8 }
+func (h *hd5) dec(b []byte) error { if len(b) != 1 { return fxErr{} }; h.kind = b[0] >> 5; return nil }
+func (h *hd5) dec4(b []byte) error { if len(b) != 1 { return fxErr{} }; h.kind = b[0] >> 4; return nil }
+type fxErr struct{}
+func (fxErr) Error() string { return "short" }
+func ok_post_field(h *hd5, b []byte) int { if err := h.dec(b); err != nil { return 0 }; return hdTab[h.kind] }
+func und_index_post_wide(h *hd5, b []byte) int { if err := h.dec4(b); err != nil { return 0 }; return hdTab[h.kind] }
+func und_index_post_unchecked(h *hd5, b []byte) int { h.dec(b); return hdTab[h.kind] }
 func bad_slice_tracked(b []byte, n int) []byte { if len(b) == 0 { return nil }; return b[n:] }
 func bad_div_zero(n, d int) int { return n / d }
 func ok_div(n, d int) int { if d <= 0 { return 0 }; return n / d }
@@ -144,25 +173,39 @@ func SelfTest() (problems []string, n int) {
 	e := NewEngine(prog, cg, inMod, "")
 	var names []string
 	for name, m := range spkg.Members {
-		if fn, ok := m.(*ssa.Function); ok && (strings.HasPrefix(name, "ok_") || strings.HasPrefix(name, "bad_")) {
+		if fn, ok := m.(*ssa.Function); ok && (strings.HasPrefix(name, "ok_") || strings.HasPrefix(name, "bad_") || strings.HasPrefix(name, "und_")) {
 			names = append(names, name)
 			e.Roots[fn] = true
 		}
 	}
 	sort.Strings(names)
+	var roots []*ssa.Function
+	for _, name := range names {
+		roots = append(roots, spkg.Func(name))
+	}
+	// the helpers the fixtures call are analysed in the context of their call sites, as in the real checks
+	e.SolveParamNil(e.Reachable(roots))
 	for _, name := range names {
 		fn := spkg.Func(name)
 		n++
 		failedKinds := map[string]int{}
 		undecidedKinds := map[string]int{}
 		whyUnd := ""
-		for _, o := range e.Obligations(fn) {
-			switch o.Status {
-			case Failed:
-				failedKinds[o.Kind]++
-			case Unsupported:
-				undecidedKinds[o.Kind]++
-				whyUnd = o.Why
+		for _, rf := range e.Reachable([]*ssa.Function{fn}) {
+			if rf != fn && e.Roots[rf] {
+				continue
+			}
+			for _, o := range e.Obligations(rf) {
+				if d := os.Getenv("LW_FIXDEBUG"); d != "" && strings.Contains(name, d) {
+					fmt.Fprintf(os.Stderr, "fixture %s: %s %s %s status=%d %s\n", name, FuncShort(rf), o.Kind, o.Expr, o.Status, o.Why)
+				}
+				switch o.Status {
+				case Failed:
+					failedKinds[o.Kind]++
+				case Unsupported:
+					undecidedKinds[o.Kind]++
+					whyUnd = o.Why
+				}
 			}
 		}
 		for _, lp := range e.LoopProgress(fn) {
